@@ -11,6 +11,9 @@ TRUSTED_BASE = [
 HOOK_COMMITS = []
 
 PROPS = {
+    "C13": {"rule": "TODO", "level_text": "TODO", "level_note": "TODO"},
+    "C18": {"rule": "TODO", "level_text": "TODO", "level_note": "TODO"},
+    "C11": {"rule": "TODO", "level_text": "TODO", "level_note": "TODO"},
     "C01": {
         "rule": "TODO",
         "level_text": "TODO", "level_note": "TODO",
